@@ -33,3 +33,19 @@ Definition run_scgen k (cs : list float) d (n : nat) (s : list float) :=
   ofphotons (scint_generate k (mkcomps cs) d n s).
 Definition run_scoff (yield res edep : float) (s : list float) :=
   run_offload (scint_offload yield res edep s) s.
+
+(** offload -> generator chains: the generator runs on the distribution data the
+    offload produces (= the step data, [mkdist]) for min(num_photons, maxn) photons
+    on the rest of the stream.  Result: count, draws of the offload, photons
+    (draw counts relative to the stream left by the offload) *)
+Definition run_chain (off : option (Z * list float)) (s : list float)
+    (gen : nat -> list float -> list (photon (T:=float) * nat)) (maxn : nat) :=
+  match off with
+  | None => None
+  | Some (n, s') => Some (n, (length s - length s')%nat, ofphotons (gen (Nat.min (Z.to_nat n) maxn) s'))
+  end.
+Definition run_ckvchain k (es ns : list float) (d : gdist (T:=float)) (maxn : nat) (s : list float) :=
+  run_chain (ckv_offload k es ns (gd_charge d) (gd_len d) (gd_v0 d) (gd_v1 d) s) s
+            (fun n s' => ckv_generate min_acc k es ns d n s') maxn.
+Definition run_scchain k (yield res edep : float) (cs : list float) (d : gdist (T:=float)) (maxn : nat) (s : list float) :=
+  run_chain (scint_offload yield res edep s) s (fun n s' => scint_generate k (mkcomps cs) d n s') maxn.
